@@ -5,7 +5,7 @@ namespace Httpcore.Drv
 open Httpcore Httpcore.H1W
 
 def showWErr : Option WErr → String
-  | none => "none" | some .localProtocol => "LocalProtocolError" | some .h11Local => "Other"
+  | none => "none" | some .localProtocol => "LocalProtocolError" | some .h11Local => "LocalProtocolError"
 
 /-- `h1write <method> <target> <headers> <chunks>` -/
 def h1write (args : List String) : String :=
